@@ -212,8 +212,22 @@ def plan_programs(by_kind, tier, seed):
             for h in select(by_kind[kind], per, rng, ops if k == 0 else sweep):
                 hid += 1
                 progs.append((hid, sh, h))
+        if kind == "A" and len(MODELS[m][2]) > 1:
+            # cross-shape histories (hand-written, not from Manifold.tla whose histories keep one shape): a type-erased
+            # object is copy-assigned from one of ANOTHER run-time dof and must then report / use the new dof
+            base = list(MODELS[m][2])
+            for k in range(len(base)):
+                s1, s2 = base[k], base[(k + 1 + rng.randrange(len(base) - 1)) % len(base)]
+                hid += 1
+                progs.append((hid, s1, XSHAPE_HISTORY(s1, s2)))
         out[m] = progs
     return out
+
+
+def XSHAPE_HISTORY(s1, s2):
+    return ["construct 1 a", "dof 1", f"reshape {s2}", "construct 2 xb", "dof 2", "assign 1 2", "dof 1", "rt1 1 T",
+            "rplus 3 1 U", "dof 3", "copy 4 1", "dof 4", f"reshape {s1}", "construct 5 xc", "assign 4 5", "dof 4", "rt1 4 U",
+            "assign 2 4", "dof 2", "rminus 2 4"]
 
 
 def write_prog(path, progs):
